@@ -17,6 +17,7 @@ verus! {
 //@@ INCLUDE lib/div_const_stubs.rs
 //@@ INCLUDE lib/div_dword_bits_@BITS@.rs
 //@@ INCLUDE lib/div_dword_lemmas.rs
+//@@ INCLUDE lib/div_simple_lemmas.rs
 //@@ INCLUDE lib/div_ops_lemmas.rs
 //@@ INCLUDE lib/div_const_lemmas.rs
 //@@ SIG integer/primitive/extend_word.rs
@@ -50,6 +51,10 @@ broadcast use super::buffer_stub::ax_buffer_inv;
 //@@ FN integer/div_const/div_rem_small_single.rs
 //@@ FN integer/div_const/div_rem_small_double.rs
 //@@ FN integer/div_const/rem_large_large.rs
+//@@ FN integer/div_const/typed_rem_const.rs
+//@@ FN integer/div_const/typedref_rem_const.rs
+//@@ FN integer/div_const/typed_div_const.rs
+//@@ FN integer/div_const/typed_divrem_const.rs
 }
 } // verus!
 fn main() {}
